@@ -1324,13 +1324,30 @@ pub fn run_c09(ctx: &Ctx) -> ! {
             c09_scenario(&slot, s, seed, 3000, &evals, &nontrivial, &positions)
         })
         .collect();
+    let mut violations = violations;
+    // local direction with PARALLEL transfers (--jobs 2/3): kill points under the thread-level scheduler (E6), for
+    // every schedule within the preemption bound and every point of it
+    let mut tkill = json!(null);
+    if ctx.replay.is_none() {
+        let mut rows = Vec::new();
+        let systems: Vec<(&'static str, usize, usize, u32, u64)> = if thorough { vec![("T7", 3, 4, 1, 400), ("T7", 2, 1, 1, 400), ("T8", 4, 4, 0, 100)] } else { vec![("T7", 3, 4, 0, 50), ("T7", 2, 1, 0, 50)] };
+        for (template, jobs, workers, bound, cap) in systems {
+            let c = crate::e5::Cfg { dir: "local", delete: true, exclude: "", jobs, verbose: false, template };
+            let (scheds, kills, vs) = crate::e6::explore_local_kills(&c, &["a"], bound, workers, cap, 16);
+            evals.fetch_add(kills, Ordering::Relaxed);
+            rows.push(json!({"config": crate::e5::cfg_name(&c), "tokio_workers": workers, "preemption_bound": bound, "schedules": scheds, "kill_runs": kills}));
+            violations.extend(vs);
+        }
+        tkill = Value::Array(rows);
+    }
     let npos = positions.lock().map(|g| g.len()).unwrap_or(0);
     let mut rep = Report::new("fault_enumeration");
+    rep.set("thread_scheduler_kills_local_parallel", tkill);
     rep.set("evaluations", evals.load(Ordering::Relaxed))
         .set("distinct_nontrivial", nontrivial.load(Ordering::Relaxed))
         .set("distinct_crash_positions", npos as u64)
         .set("scenarios", scs.iter().map(s9_name).collect::<Vec<_>>())
-        .set("rule", "per scenario (direction x destination state x flag; files of 0, 1, 300 KiB and 700 000 bytes, --jobs 1): the copia process is SIGKILLed immediately before its k-th file-system-mutating or pipe-write libc call for EVERY k until a run completes unkilled; the harness is a subreaper and waits for every orphaned child (the remote shell command of a push runs to completion on EOF); then the destination is checked path by path, and the same command is re-run to completion and compared with the uninterrupted run; non-trivial = crash state differs from both the initial and the final destination")
+        .set("rule", "for the LOCAL direction with --jobs 2/3 every point of every thread schedule within a preemption bound is a kill point too (thread_scheduler_kills_local_parallel); per scenario (direction x destination state x flag; files of 0, 1, 300 KiB and 700 000 bytes, --jobs 1): the copia process is SIGKILLed immediately before its k-th file-system-mutating or pipe-write libc call for EVERY k until a run completes unkilled; the harness is a subreaper and waits for every orphaned child (the remote shell command of a push runs to completion on EOF); then the destination is checked path by path, and the same command is re-run to completion and compared with the uninterrupted run; non-trivial = crash state differs from both the initial and the final destination")
         .set("samples", json!([{"scenario":"push-mixed-delete","kill_at":5},{"scenario":"local-mixed-delete","kill_at":9}]))
         .set("exhaustive", true);
     rep.assume("SSH directions run through a stand-in: `ssh host cmd…` = bash -c \"cmd…\" in a per-run remote home (arguments joined by single spaces as OpenSSH does; remote login shell assumed to be bash); the network leg itself is out of scope");
